@@ -854,11 +854,17 @@ where
             &self.parser as *const _ as *const () as usize,
         );
 
+        // Shelter the pending ('alt') error of whatever came before: the memoized parser runs on a fresh one, so that
+        // what gets cached is its own error only, and the sheltered error is merged back on every path
+        let old_alt = inp.errors.alt.take();
+
         match inp.memos.entry(key) {
             hashbrown::hash_map::Entry::Occupied(o) => {
-                if let Some(err) = o.get() {
-                    let err = err.clone();
-                    inp.add_alt_err(&before.inner /*&err.pos*/, err.err);
+                let cached = o.get().clone();
+                inp.errors.alt = old_alt;
+                if let Some(err) = cached {
+                    // Replay the cached error where it was recorded
+                    inp.add_alt_err(&err.pos, err.err);
                 } else {
                     let err_span = inp.span_since(&before);
                     // TODO: Is this an appropriate way to handle infinite recursion?
@@ -873,11 +879,15 @@ where
 
         let res = self.parser.go::<M>(inp);
 
+        let new_alt = inp.errors.alt.take();
         if res.is_err() {
-            let alt = inp.take_alt();
-            inp.memos.insert(key, alt);
+            inp.memos.insert(key, new_alt.clone());
         } else {
             inp.memos.remove(&key);
+        }
+        inp.errors.alt = old_alt;
+        if let Some(new_alt) = new_alt {
+            inp.add_alt_err(&new_alt.pos, new_alt.err);
         }
 
         res
